@@ -360,6 +360,9 @@ func cmdCheck(prop, tier string) int {
 		}
 		if isKnown {
 			known++
+			if f.o != nil {
+				nObl-- // a known finding is reported separately (undischarged_known), not among the proof obligations
+			}
 			continue
 		}
 		violations++
